@@ -56,6 +56,15 @@ func (l *Log) add(step, task int, kind, data string) {
 	}
 }
 
+// addSched records a scheduling decision (which task was released from which
+// gate): it feeds both hashes but is not kept verbatim.
+//
+//go:norace
+func (l *Log) addSched(step, task int, point string) {
+	l.h = mix(mix(l.h, string(rune('a'+task))), point)
+	l.ih = mix(mix(l.ih, string(rune('a'+task))), point)
+}
+
 func (l *Log) Len() int            { return l.n }
 func (l *Log) Hash() string        { return fmt.Sprintf("%016x", l.h) }
 func (l *Log) Interleaving() uint64 { return l.ih }
